@@ -201,7 +201,7 @@ def gen(r, cls):
             v[i] = (1 + float(10.0 ** r.uniform(-6, 2))) * np.exp(1j * r.uniform(-3, 3))
         d.update(values=v, via=["RFPulse", "estimate_rf"][r.integers(2)])
     elif cls == "boundary":
-        d.update(which=["zero_duration", "zero_flip", "tau0_E", "tau0_P", "tau0_G?", "zero_T_array"][r.integers(6)])
+        d.update(which=["zero_duration", "zero_flip", "tau0_E", "tau0_P", "tau0_G?", "zero_T_array", "tau0_X", "zero_exchange"][r.integers(8)])
         d["expect"] = "ok"
     else:
         raise ValueError(cls)
@@ -351,6 +351,12 @@ def run_real(d, epg):
                     epg.P(0, 0.1)(sm); epg.P(0.0, 0.1, duration=True)(sm)
                 elif w == "zero_T_array":
                     epg.T(np.array([0.0, 30.0]), 0)(sm)
+                elif w == "tau0_X":
+                    epg.X(0.0, 0.1)(epg.StateMatrix(density=np.ones(2)))
+                    epg.X(np.zeros((1, 3)), 0.1)(epg.StateMatrix(density=np.ones((2, 3))))
+                elif w == "zero_exchange":
+                    epg.X(np.array([[1.0, 2.0]]), np.zeros((2, 2)))(epg.StateMatrix(density=np.ones((2, 2))))
+                    epg.X(5.0, 0.0)(epg.StateMatrix(density=np.ones(2)))
                 else:
                     epg.E(np.array([0.0, 1.0]), 100, 10, duration=True)(sm)
     except Exception as exc:
